@@ -34,6 +34,8 @@ CheckEnc(e) ==
   ELSE IF \E i \in 1..7 : e.scan[i] /\ TypeNames[i] # e.g.t THEN "scan-accepts-a-different-type"
   ELSE IF e.valid /\ \E i \in 1..7 : ~e.scan[i] /\ TypeNames[i] = e.g.t THEN "scan-rejects-its-own-type"
   ELSE IF (e.valid /\ ~e.scan[8]) \/ ~e.scansame THEN "scan-geometry"
+  \* NullGeometry: NULL <-> nil; otherwise exactly Geometry's Scan / Value
+  ELSE IF e.null # <<TRUE, TRUE, TRUE, TRUE>> THEN "null-geometry"
   ELSE "ok"
 
 CheckDec(e) ==
